@@ -368,6 +368,7 @@ func propC18(c *vs.Case, nSubs, nRes, length int, heavyOps bool) error {
 		w.rm.VerifRefresh()
 		log = append(log, res+" is not known to discovery yet")
 	}
+	breaks := 0 // watch breaks so far in this case
 	for step := 0; step < length; step++ {
 		type op struct {
 			name string
@@ -617,8 +618,12 @@ func propC18(c *vs.Case, nSubs, nRes, length int, heavyOps bool) error {
 		}
 		for _, res := range c18Names(nRes) {
 			res := res
-			if !heavyOps || len(w.handlersOn(res)) == 0 {
-				continue // (needs seconds per use because the informer backs off before listing again: random sequences only)
+			if !heavyOps || len(w.handlersOn(res)) == 0 || breaks >= 3 {
+				// needs seconds per use because the informer backs off before listing again: random sequences only.
+				// The reflector doubles that pause (with up to 100 % jitter) every time its watch ends: 0.8-1.6 s,
+				// 1.6-3.2 s, 3.2-6.4 s, then 6.4-12.8 s and 12.8-25.6 s - the 15 s the check waits for the deletion
+				// cover three breaks per case with room to spare, not five (false alarm of thorough sweep #3).
+				continue
 			}
 			ops = append(ops, op{"watch of " + res + " breaks, an object is deleted meanwhile", func() error {
 				name := fmt.Sprintf("gone%d", step)
@@ -636,6 +641,7 @@ func propC18(c *vs.Case, nSubs, nRes, length int, heavyOps bool) error {
 				w.sim.ExpireWatches(res)
 				w.sim.ExtDelete(res, "ns1", name, "")
 				c.Class("deletion-found-by-relist")
+				breaks++
 				for _, h := range active {
 					hh := h
 					if !poll(15*time.Second, func() bool { return hh.hasType("delete", name) }) {
